@@ -397,6 +397,10 @@ func checkRaw(c RawCase) vk.Verdict {
 		return vk.Failf("%s: %v", ctx, err)
 	}
 	ran := strings.HasPrefix(string(out), "HTTP/1.1 200")
+	// an element of a slice of structs addressed by a negative number cannot be bound: that is a failure, reported as one
+	if ran && (strings.Contains(c.Query, "items[-") || strings.Contains(c.Query, "items.-")) && results["nested-query"] == "<nil>" {
+		return vk.Failf("%s: the query addresses a slice element by a negative number, binding it into the nested struct reported no error", ctx)
+	}
 	// whether a query binds does not depend on the order in which its (differently named) components arrive: one
 	// malformed or unconvertible component makes the binding fail wherever it stands
 	if pairs := strings.Split(c.Query, "&"); ran && len(pairs) > 1 {
